@@ -9,6 +9,8 @@ translator:     gen/anyflow.py (increments +1/+2, case labels, terminal values, 
                 skeletons with memory orders of dependency / vertex / data / closure / graph / executor functions)
 correspondence: E-CONC under VRT, harness/c05.cpp on the real GraphBuilder / Graph / executors:
                 L1  mode dep: one-dependency graph, the three actors on up to three threads, atomic lock-step replay
+                L2  modes gated / gatedpool: external threads feed a RUNNING graph (also requested targets, while Graph::run
+                    still binds / activates), parked vertex closures keep the closure open; up to 7 dependencies per vertex
                 L2  modes graph / pool: random DAGs, inplace and thread-pool executor, asynchronous processors, inputs
                     emitted by other threads, run / reset x 1-3; every trace line on a named atomic and every harness
                     event is translated into an event of the L2 model and must be enabled (lean/Drivers/C05.lean);
@@ -92,7 +94,7 @@ def _classify(ctx, mode, env, runs, dist, distinct, samples):
         if r["oracle"]:
             dist["oracle"] += 1
             kind = r["oracle"][0].split("ORACLE", 1)[1].split()[0]
-            ctx.failing_input("oracle:%s:%s" % ("graph" if mode in ("graph", "pool") else mode, kind), text)
+            ctx.failing_input("oracle:%s:%s" % ({"pool": "graph", "gatedpool": "gated"}.get(mode, mode), kind), text)
         elif r["verdict"] != "ok":
             ctx.failing_input("verdict:%s:%s" % (mode, r["verdict"].split()[0]), text + "\n" + r.get("stderr", ""))
         elif r["replay"] and r["replay"].startswith("ok"):
@@ -139,7 +141,8 @@ def run(ctx):
     # samedata / inject exercise the two known findings (keys oracle:samedata:code, oracle:inject:dup-flush); any other
     # oracle kind, verdict or replay divergence in these modes is a violation like everywhere else
     plan = [("dep", 3 * n, {}), ("dep", n, {"VRT_STRATEGY": "pct"}), ("graph", n, {}), ("pool", n, {}),
-            ("pool", n // 2, {"VRT_STRATEGY": "pct"}), ("samedata", n // 3, {}), ("inject", n // 3, {})]
+            ("pool", n // 2, {"VRT_STRATEGY": "pct"}), ("gated", n, {}), ("gated", n // 2, {"VRT_STICK": "0"}),
+            ("gatedpool", n // 2, {}), ("samedata", n // 3, {}), ("inject", n // 3, {})]
     for mode, cnt, env in plan:
         if len([k for k, _ in ctx.failing if k not in known]) >= 5:
             break       # five concrete failing inputs are enough for the report
@@ -153,7 +156,8 @@ def run(ctx):
     ctx.cov["rule"] = ("one case = one seeded graph + plan (dep: one dependency with/without condition, on/unless, condition true/false/empty, each of "
                        "C/T absent / before the run / concurrent; graph, pool: 3-12 vertices, 0-6 dependencies per vertex, 45% conditional, 25% essential, "
                        "20% asynchronous processors, 60% std::string payloads (kept across reset), presets from the main or another thread changing from "
-                       "cycle to cycle, 1-3 targets, pool 1-4 workers) run for 1-4 run/reset cycles on one instance, plain flags _established/_ready as scheduling points, "
+                       "cycle to cycle, processors failing with positive / negative codes on 1/19 of their inputs, 1-3 targets, pool 1-4 workers; gated: 25% external "
+                       "producers fed by injector threads before / during / after activation incl. requested targets, up to 7 dependencies) run for 1-4 run/reset cycles on one instance, plain flags _established/_ready as scheduling points, "
                        "under one seeded schedule (random with 5 stickiness levels, or PCT) with spurious weak-CAS failures 1/8; non-trivial = at least two "
                        "threads took part or a dependency was decremented before its activation; distinct by trace hash")
     ctx.cov["samples"] = samples or [["<no sample>"]]
